@@ -252,6 +252,11 @@ def step(ctx, main, ev, log, edge=False):
         if txt == pre_txt[w]:
             return True          # no change event
         expect = (w, acc, v)
+    press = None
+    if kind == 'click' and payload in ('Cv_up_button', 'Cv_down_button', 'D50_up_button', 'D50_down_button'):
+        # an up / down button makes an entry for the slurry that is being edited NOW: the model value does not move the other way, and away from the ends
+        # of the concentration box the press is not lost
+        press = (payload.split('_')[0] + '_input', +1 if '_up_' in payload else -1)
     ctx.count('evaluations')
     log.append(label)
     try:
@@ -263,6 +268,13 @@ def step(ctx, main, ev, log, edge=False):
         ctx.violation(f'callback raised {type(e).__name__}: {e}', {'events': list(log)}, key='callback-raised')
         return False
     s = main.slurry
+    if press:
+        w, sign = press
+        got = MODEL_OF[w](s)
+        moved = (got - pre[w]) * sign
+        if moved < -1e-9 or (w == 'Cv_input' and 0.02 <= pre[w] <= 0.44 and moved < 1e-4):
+            ctx.violation(f'{payload} pressed with {w.split("_")[0]} = {pre[w]!r}: the model now has {got!r}', {'events': list(log)}, key='button-step')
+            return False
     if expect:
         w, acc, v = expect
         got = MODEL_OF[w](s)
@@ -347,6 +359,8 @@ def monitor(ctx, extended=False):
         other = [x for x in names if x != nm][:1]
         scripts.append(['fluid=fresh', f'pipeline={nm!r}', "Cv='0.2'", 'fluid=salt'] + [f'pipeline={x!r}' for x in other] + ['fluid=fresh', f'pipeline={nm!r}'])
         scripts.append(['units=US', "rhos='3.1'", f'pipeline={nm!r}', 'D50_up_button', 'units=SI'] + [f'pipeline={x!r}' for x in other])
+        # the buttons step the slurry the selected pipeline brought with it
+        scripts.append([f'pipeline={nm!r}', "Cv='0.333'", 'Cv_up_button', 'Cv_up_button', 'Cv_down_button', 'D50_up_button', 'D50_down_button'])
     # grading pushed towards the limits of its boxes by D50 entries (D15 and D85 follow D50 in proportion): D15 must stay >= 0.04 mm, D85 <= Dp / 2
     for raw in ([('D15_input', '0.170'), ('D50_input', '0.200'), ('D50_input', '0.190')],
                 [('D50_input', '2.700'), ('D50_input', '7.300'), ('D50_input', '19.800'), ('D50_input', '53.800'), ('D50_input', '124.000')],
